@@ -123,12 +123,15 @@ func HarnessC16TCPBad(a []int) {
 	verifCover("C16.tcpbad.end")
 }
 
-// HarnessC16UDP: a = {datagrams K, first kind, garbage length L (0: none)}: one frame per datagram;
+// HarnessC16UDP: a = {datagrams K, first kind, garbage length L (0: none, -1: an empty datagram)}: one frame per datagram;
 // optionally an arbitrary (symbolic) datagram of L bytes first, which must not prevent or alter
 // the delivery of the following well-formed ones (the 1024-byte receive buffer is reused).
 func HarnessC16UDP(a []int) {
 	K, kind0, L := a[0], a[1], a[2]
 	badAccepted := false
+	if L < 0 {
+		verifDatagram([]byte{}) // an empty datagram is discarded like any other malformed one
+	}
 	if L > 0 {
 		junk := nondetBytes(L)
 		var s Service
